@@ -23,10 +23,10 @@ tvars == <<vars, l>>
 Line == TraceLog[l]
 Has(f) == f \in DOMAIN Line
 
-QRow(k) == LET idx == {i \in 1..Len(Line.q) : SubSeq(Line.q[i], 1, 5) = k} IN
-           IF idx = {} THEN <<>> ELSE Line.q[CHOOSE i \in idx : TRUE]
-ZRow(k) == LET idx == {i \in 1..Len(Line.z) : SubSeq(Line.z[i], 1, 2) = k} IN
-           IF idx = {} THEN <<>> ELSE Line.z[CHOOSE i \in idx : TRUE]
+QRow(k) == LET idx == {i \in 1..Len(Line.fq) : SubSeq(Line.fq[i], 1, 5) = k} IN
+           IF idx = {} THEN <<>> ELSE Line.fq[CHOOSE i \in idx : TRUE]
+ZRow(k) == LET idx == {i \in 1..Len(Line.fz) : SubSeq(Line.fz[i], 1, 2) = k} IN
+           IF idx = {} THEN <<>> ELSE Line.fz[CHOOSE i \in idx : TRUE]
 
 (* the back-off of a generation is what was left of it when it was first observed *)
 Follow(old, streak, rel, cause) ==
@@ -37,8 +37,8 @@ ObsQ == [k \in QKeys |-> LET r == QRow(k) IN IF r = <<>> THEN None ELSE Follow(f
 ObsZ == [k \in ZKeys |-> LET r == ZRow(k) IN IF r = <<>> THEN None ELSE Follow(fz[k], r[3], r[4], r[5])]
 
 (* every retained state must be one of the modelled keys (the driver reports others itself) *)
-RowsKnown == /\ \A i \in 1..Len(Line.q) : SubSeq(Line.q[i], 1, 5) \in QKeys
-             /\ \A i \in 1..Len(Line.z) : SubSeq(Line.z[i], 1, 2) \in ZKeys
+RowsKnown == /\ \A i \in 1..Len(Line.fq) : SubSeq(Line.fq[i], 1, 5) \in QKeys
+             /\ \A i \in 1..Len(Line.fz) : SubSeq(Line.fz[i], 1, 2) \in ZKeys
 
 ObsRes == [hit |-> Line.hit, kind |-> Line.kind, src |-> Line.src, streak |-> Min2(Line.streak, SCap), rel |-> Line.rel]
 
@@ -51,7 +51,9 @@ SameRes(r) == r.hit = Line.hit /\ (r.hit => (r.kind = Line.kind /\ r.src = Line.
 
 (* does FailureCache.tla predict this line? *)
 Predicted ==
-  CASE Line.op = "RecordQuestion" ->
+  CASE ~Enabled /\ Line.op \in {"RecordQuestion", "RecordZone", "Lookup", "LookupWire", "RetryKey", "ResetZone"} ->
+         SameStore(Here) /\ ~Line.hit
+    [] Line.op = "RecordQuestion" ->
          /\ \E S \in RecQSet(fq, fz, Line.k, Line.cause) : SameStore(S)
          /\ SameRes(HitOf("q", Line.k, RecordEntry(fq[Line.k], Line.cause)))
     [] Line.op = "RecordZone" ->
@@ -70,6 +72,11 @@ Predicted ==
          LET lk == LookupIn(fq, fz, Line.k) IN
          IF Enabled /\ lk.hit THEN Line.hit /\ ~Line.down /\ SameStore(Here)
          ELSE ~Line.hit /\ Line.down /\ \E S \in ReqEffectSet(fq, fz, Line.k, Line.o, Line.z) : SameStore(S)
+    [] Line.op = "Finish" -> \E S \in ReqEffectSet(fq, fz, Line.k, Line.o, Line.z) : SameStore(S)
+    [] Line.op \in {"Begin", "Wake"} ->
+         /\ SameStore(Here)
+         /\ Line.hit = (Enabled /\ LookupIn(fq, fz, Line.k).hit)
+         /\ (Line.res = "shed" => RetryKeyIn(fq, fz, Line.k) # NoKey)
     [] OTHER -> FALSE
 
 TraceInit == Init /\ l = 1 /\ TLCSet(1, 0)
@@ -85,6 +92,11 @@ Observe ==
   /\ fq' = ObsQ /\ fz' = ObsZ
   /\ last' = CASE Line.op = "Request" ->
                     MkLast("Request", <<Line.k, Line.o, Line.z>>, Line.k,
+                           [Miss EXCEPT !.hit = Line.hit, !.kind = IF Line.hit THEN "?" ELSE "-"], 0, Line.down, Line.res)
+               [] Line.op = "Finish" ->
+                    MkLast("Finish", <<Line.r, Line.k, Line.o, Line.z>>, Line.k, Miss, 0, TRUE, Line.res)
+               [] Line.op \in {"Begin", "Wake"} ->
+                    MkLast(Line.op, <<Line.r>>, Line.k,
                            [Miss EXCEPT !.hit = Line.hit, !.kind = IF Line.hit THEN "?" ELSE "-"], 0, Line.down, Line.res)
                [] Line.op \in {"Lookup", "LookupWire", "RetryKey", "RecordQuestion", "ResetQuestion", "ResetMatching"} ->
                     MkLast(Line.op, <<Line.k>>, Line.k, ObsRes, Line.n, FALSE, "-")
